@@ -4,7 +4,7 @@ from vlib import Case
 
 RULE = ("random + boundary-aimed op sequences over suspend_point<void> and suspend_point<MV> objects (MV: class type with "
         "observable moves): New/NewH/NewVoid/NewVoidH/create_suspend_point/Add/Merge/MoveCtor/MoveBase/MoveAssign/Swap/Pop/"
-        "Clear/Destroy/Read(conversion, const conversion)/Await(temporary)/AwaitL(lvalue)/AddSelf(own handle)/Flush in normal "
+        "AddFail(operator new[] throws)/CreateThrow(callback throws)/Clear/Destroy/Read(conversion, const conversion)/Await(temporary)/AwaitL(lvalue)/AddSelf(own handle)/Flush in normal "
         "mode (sp0) and coroutine mode (sp1), every case closed by awaiting the object that holds the own handle, destroying "
         "all objects and flushing the ready queue; a case is non-trivial when at least one object crosses the inline->heap "
         "boundary (allocation observed in the model) or a merge/move/swap/create/await of a non-empty object occurs; "
@@ -21,18 +21,39 @@ ASSUMPTIONS = ["the awaiting coroutine's own handle (co_await self()) is in at m
 NSLOT = 6
 
 
+class Obj:
+    """one suspend point as the model sees it: type, handle list, heap flag, capacity"""
+    def __init__(self, typed, hs=()):
+        self.typed, self.hs, self.flag, self.cap = typed, [], False, 0
+        for h in hs: self.add(h)
+
+    def needs_alloc(self):
+        return len(self.hs) == self.cap if self.flag else len(self.hs) >= 3
+
+    def add(self, h):
+        if self.needs_alloc():
+            self.cap = 2 * len(self.hs); self.flag = True
+        self.hs.append(h)
+
+    def take(self):
+        """contents leave (move / merge source / clear / await): _count_flag = 0"""
+        hs = self.hs
+        self.hs, self.flag = [], False
+        return hs
+
+
 class Sim:
     """list-level mirror of the model's acceptance rules (used to generate valid ops, to close cases, for signatures)"""
     def __init__(self, coro):
         self.coro = coro
-        self.s = {}          # slot -> [typed, hs]
+        self.s = {}          # slot -> Obj
         self.q = []
         self.enq = 0         # push_back calls so far
         self.self_last = False
 
     def holder(self):
-        for o, (t, hs) in self.s.items():
-            if 0 in hs:
+        for o, ob in self.s.items():
+            if 0 in ob.hs:
                 return o
         return None
 
@@ -47,46 +68,59 @@ class Sim:
             want = {0: 3, 1: 4, 13: 2, 14: 3}[c]
             if len(op) != want or live(op[1]): return False
             if c in (1, 14) and op[2] <= 0: return False
-            s[op[1]] = [c in (0, 1), [op[2]] if c in (1, 14) else []]
+            s[op[1]] = Obj(c in (0, 1), [op[2]] if c in (1, 14) else [])
             return True
-        if c == 12:
+        if c in (12, 20):
             if len(op) < 4 or live(op[1]) or op[2] not in (0, 1) or any(h <= 0 for h in op[4:]): return False
-            s[op[1]] = [op[2] == 1, list(reversed(op[4:]))]
+            if c == 12:
+                s[op[1]] = Obj(op[2] == 1, list(reversed(op[4:])))
+            elif self.coro:
+                self.q += op[4:]; self.enq += len(op) - 4
             return True
-        if c == 2:
+        if c in (2, 19):
             if len(op) != 3 or not live(op[1]) or op[2] <= 0: return False
-            s[op[1]][1].append(op[2]); return True
+            if c == 19 and s[op[1]].needs_alloc(): return True     # bad_alloc: nothing changes
+            s[op[1]].add(op[2]); return True
         if c == 17:
             if len(op) != 2 or not self.coro or not live(op[1]) or self.holder() is not None or 0 in self.q: return False
-            s[op[1]][1].append(0); return True
+            s[op[1]].add(0); return True
         if c in (3, 11):
             if len(op) != 3 or op[1] == op[2] or not live(op[1]) or not live(op[2]): return False
-            if c == 11 and s[op[1]][0] and not s[op[2]][0]: return False
-            s[op[1]][1] += s[op[2]][1]; s[op[2]][1] = []; return True
+            if c == 11 and s[op[1]].typed and not s[op[2]].typed: return False
+            for h in s[op[2]].take(): s[op[1]].add(h)
+            return True
         if c in (4, 5):
             if len(op) != (3 if c == 4 else 4) or op[1] == op[2] or live(op[1]) or not live(op[2]): return False
-            s[op[1]] = [True if c == 5 else s[op[2]][0], s[op[2]][1]]; s[op[2]][1] = []; return True
+            src = s[op[2]]
+            d = Obj(True if c == 5 else src.typed)
+            d.flag, d.cap = src.flag, src.cap
+            d.hs = src.take()
+            s[op[1]] = d
+            return True
         if c == 18:
-            if len(op) != 3 or op[1] == op[2] or not live(op[1]) or not live(op[2]) or s[op[1]][0] != s[op[2]][0]: return False
-            s[op[1]][1], s[op[2]][1] = s[op[2]][1], s[op[1]][1]; return True
+            if len(op) != 3 or op[1] == op[2] or not live(op[1]) or not live(op[2]) or s[op[1]].typed != s[op[2]].typed: return False
+            ha, hb = s[op[1]].take(), s[op[2]].take()
+            for h in hb: s[op[1]].add(h)
+            for h in ha: s[op[2]].add(h)
+            return True
         if c == 15:
-            return len(op) == 3 and live(op[1]) and s[op[1]][0] and op[2] in (0, 1)
+            return len(op) == 3 and live(op[1]) and s[op[1]].typed and op[2] in (0, 1)
         if c in (6, 7, 8):
-            if len(op) != 2 or not live(op[1]) or 0 in s[op[1]][1]: return False
-            hs = s[op[1]][1]
+            if len(op) != 2 or not live(op[1]) or 0 in s[op[1]].hs: return False
             if c == 6:
-                if hs: hs.pop()
+                if s[op[1]].hs: s[op[1]].hs.pop()
             else:
+                hs = s[op[1]].take()
                 if self.coro:
                     self.q += hs; self.enq += len(hs)
-                s[op[1]][1] = []
                 if c == 8: del s[op[1]]
             return True
         if c in (9, 16):
             if len(op) != 2 or not self.coro or not live(op[1]): return False
-            hs = s[op[1]][1]
-            s[op[1]][1] = []
-            if not hs: return True
+            if not s[op[1]].hs:
+                if c == 9: s[op[1]].take()
+                return True
+            hs = s[op[1]].take()
             out, rest = hs[-1], hs[:-1]
             if out == 0: self.self_last = True
             me_in = out == 0 or 0 in rest
@@ -136,7 +170,7 @@ def gen_one(rng, engine, name, nops, aim, allow_self_last=False):
         ops.append(op)
         return sim.apply(op)
     def count(o):
-        return len(sim.s[o][1])
+        return len(sim.s[o].hs)
     for _ in range(nops):
         r = rng.random()
         live = list(sim.s)
@@ -151,7 +185,7 @@ def gen_one(rng, engine, name, nops, aim, allow_self_last=False):
             else:
                 m = rng.choice([0, 1, 2] + aim)
                 if nxt[0] + m > 70 or not budget(m): m = 1
-                do([12, s, rng.randint(0, 1), 3000 + s] + [fresh() for _ in range(m)])
+                do([20 if rng.random() < 0.25 else 12, s, rng.randint(0, 1), 3000 + s] + [fresh() for _ in range(m)])
             continue
         if not live:
             continue
@@ -161,7 +195,7 @@ def gen_one(rng, engine, name, nops, aim, allow_self_last=False):
             k = rng.choice(aim)
             if nxt[0] + k > 70: k = 1
             for _ in range(k):
-                do([2, s, fresh()])
+                do([19 if rng.random() < 0.12 else 2, s, fresh()])
         elif r < 0.48 and len(live) >= 2:
             t = rng.choice([x for x in live if x != s])
             do([rng.choice([3, 11]), s, t])
@@ -187,7 +221,7 @@ def gen_one(rng, engine, name, nops, aim, allow_self_last=False):
         elif r < 0.87 and budget(count(s)):
             do([8, s])
         elif coro and r < 0.93 and budget(count(s) + 1):
-            if s == hold and sim.s[s][1][-1] == 0 and not allow_self_last:
+            if s == hold and sim.s[s].hs[-1] == 0 and not allow_self_last:
                 do([2, s, fresh()])                      # keep the own handle away from the last position
             do([rng.choice([9, 16]), s])
         elif coro and r < 0.97 and hold is None:
@@ -205,7 +239,7 @@ def gen_one(rng, engine, name, nops, aim, allow_self_last=False):
         sim2 = Sim(coro)
         for o in ops: sim2.apply(o)
         h = sim2.holder()
-        if h is not None and sim2.s[h][1][-1] == 0:
+        if h is not None and sim2.s[h].hs[-1] == 0:
             c = Case(engine, name, ops + [[2, h, 900]])
     return close_case(c)
 
@@ -288,6 +322,20 @@ def gen(seed, tier):
             ops5 = [[12, 0, 1, 3000] + [10 + i for i in range(k)], [15, 0, 0], [15, 0, 0], [15, 0, 1], [12, 1, 0, 0, 400, 401],
                     [0, 2, 1002], [2, 2, 402], [18, 0, 2], [15, 0, 0], [15, 2, 0], [15, 2, 1], [4, 3, 2], [15, 2, 0], [15, 3, 0], [11, 0, 3], [15, 3, 1], [15, 0, 0]]
             cases.append(close_case(Case(eng, "b%d" % b, ops5))); b += 1
+    # allocation failure exactly in an add() that must allocate (4th, 7th, 13th, 25th handle), and in one that need not
+    for eng in ("sp0", "sp1"):
+        for k in (2, 3, 4, 6, 12, 24):
+            for new in ([0, 0, 1000], [13, 0]):
+                ops = [new] + [[2, 0, 10 + i] for i in range(k)] + [[19, 0, 90], [19, 0, 91], [2, 0, 92], [19, 0, 93]]
+                cases.append(close_case(Case(eng, "b%d" % b, ops))); b += 1
+                ops = ops + ([[16, 0]] if eng == "sp1" else [[7, 0]]) + [[2, 0, 94]]
+                cases.append(close_case(Case(eng, "b%d" % b, ops))); b += 1
+        # create_suspend_point whose callback throws, with coroutines already waiting in the ready queue
+        for k in (0, 1, 2, 5):
+            for t in (0, 1):
+                ops = [[14, 3, 500], [2, 3, 501], [7, 3], [20, 0, t, 3000] + [10 + i for i in range(k)],
+                       [12, 0, t, 3001, 600, 601], [14, 1, 502], [8, 1], [20, 1, t, 3002, 700]]
+                cases.append(close_case(Case(eng, "b%d" % b, ops))); b += 1
     # value reads around every kind of move, awaited values
     ops6 = [[1, 0, 5, 1000], [15, 0, 0], [15, 0, 0], [16, 0], [15, 0, 0], [2, 0, 6], [9, 0], [15, 0, 0], [15, 0, 1]]
     cases.append(close_case(Case("sp1", "b%d" % b, ops6))); b += 1
@@ -312,7 +360,7 @@ def nontrivial(case, model_obs):
         a = l.split()
         if len(a) > 3 and a[0] == "0":
             allocs += int(a[3])
-    moves = any(o and o[0] in (3, 4, 5, 9, 11, 12, 16, 18) for o in case.ops)
+    moves = any(o and o[0] in (3, 4, 5, 9, 11, 12, 16, 18, 19, 20) for o in case.ops)
     return allocs > 0 or moves
 
 
